@@ -6,14 +6,24 @@ from .common import VERIF, run, offline_env
 
 
 class Replay:
-    def __init__(self, scratch_dir):
-        self.target = os.path.join(scratch_dir, "replay_target")
+    def __init__(self, scratch_dir, no_std=False):
+        self.target = os.path.join(scratch_dir, "replay_target" + ("_nostd" if no_std else ""))
         self.built = {}
+        self.manifest = os.path.join(VERIF, "replay", "Cargo.toml")
+        if no_std:
+            # the same public-API program linked against the crate built WITHOUT its default `std` feature
+            d = os.path.join(scratch_dir, "replay_nostd")
+            os.makedirs(os.path.join(d, "src"), exist_ok=True)
+            import shutil
+            shutil.copy(os.path.join(VERIF, "replay", "src", "main.rs"), os.path.join(d, "src", "main.rs"))
+            text = open(self.manifest).read().replace('raptorq = { path = "/repo" }', 'raptorq = { path = "/repo", default-features = false }')
+            open(os.path.join(d, "Cargo.toml"), "w").write(text)
+            self.manifest = os.path.join(d, "Cargo.toml")
 
     def build(self, release):
         if release in self.built:
             return self.built[release]
-        cmd = ["cargo", "build", "--offline", "--manifest-path", os.path.join(VERIF, "replay", "Cargo.toml"),
+        cmd = ["cargo", "build", "--offline", "--manifest-path", self.manifest,
                "--target-dir", self.target]
         if release:
             cmd.append("--release")
@@ -23,9 +33,12 @@ class Replay:
         self.built[release] = os.path.join(self.target, "release" if release else "debug", "rqreplay")
         return self.built[release]
 
-    def run(self, args, release=False, timeout=600):
+    def run(self, args, release=False, timeout=600, multiline=False):
         exe = self.build(release)
         rc, out, secs = run([exe] + [str(a) for a in args], timeout=timeout)
+        if multiline:
+            i = out.find("RESULT ")
+            return out[i + len("RESULT "):].strip() if i >= 0 else "noresult rc=%s %s" % (rc, out[-300:].replace("\n", " "))
         for line in out.splitlines():
             if line.startswith("RESULT "):
                 return line[len("RESULT "):].strip()
